@@ -23,7 +23,8 @@ def gen_cases(ck):
         if rng.random() < 0.6:
             tgt = md if rng.random() < 0.5 else md['info']
             tgt[rng.choice(['b', 'fl', 'when', 'tup', 'zset', 'ñ', '\U0001F600'])] = rng.choice(
-                [True, False, 2.0, 7.5, -3.5, datetime.datetime(2001, 2, 3, 4, 5, 6), (1, 'x', b'\xff'), {5}, [True, {'k': 1.0}], {'é': {'a': ()}}])
+                [True, False, 2.0, 7.5, -3.5, datetime.datetime(2001, 2, 3, 4, 5, 6), (1, 'x', b'\xff'), {5}, [True, {'k': 1.0}], {'é': {'a': ()}},
+                 [True, False], (1, False, b'p'), [b'raw', 7], [[True]], {'k': [False, 2]}, [2.0, 3], [datetime.datetime(2001, 2, 3, 4, 5, 6), 1], (), [[], [b'']]])
         origin = rng.choice(['direct', 'direct', 'copy', 'reread', 'magnet-filled', 'edited'])
         out.append((md, origin))
     return out
